@@ -46,6 +46,14 @@ func c01Event(r *rand.Rand, content string) *mocrelay.Event {
 		}
 		tag := make(mocrelay.Tag, n)
 		tag[0] = vk.Pick(r, []string{"e", "p", "a", "d", "t", "client", "E", "-", "subject"})
+		switch r.IntN(8) {
+		case 0:
+			// a tag name is a tag element like any other: one-byte names that need escaping,
+			// and short names of arbitrary characters
+			tag[0] = vk.Pick(r, []string{"\"", "\\", "\n", "\x00", "\x1f", "\x7f", "\t", "/", "\u00e9", "\u2028", ""})
+		case 1:
+			tag[0] = vk.HostileString(r, 3)
+		}
 		for j := 1; j < n; j++ {
 			switch r.IntN(4) {
 			case 0:
